@@ -114,6 +114,11 @@ def _optimize(
                             progress_bar,
                         )
                     )
+
+                # Raise if exception occurred in executing the remaining futures.
+                completed, futures = wait(futures)
+                for f in completed:
+                    f.result()
     finally:
         study._thread_local.in_optimize_loop = False
         progress_bar.close()
